@@ -181,6 +181,8 @@ func run(ctx *core.Ctx) error {
 		kept = append(kept, ob)
 		keptCase = append(keptCase, gc)
 	}
+	tableCases := len(recs)
+
 	// 3b. second shape: scripts on one in-memory tree value, edited between uses
 	scripts, err := generateMem(ctx)
 	if err != nil {
@@ -218,7 +220,7 @@ func run(ctx *core.Ctx) error {
 	ctx.Ev.Set("shape_differs_from_model", drift)
 	ctx.Ev.Set("sizes", szs)
 	ctx.Logf("case table: %d lines -> %d concrete cases executed (%d without concrete counterpart), %d table suspects, %d shape differences",
-		len(table), len(recs), unrealCases, len(suspects), drift)
+		len(table), tableCases, unrealCases, len(suspects), drift)
 
 	if err := waitMC(); err != nil {
 		return err
